@@ -12,12 +12,14 @@ import (
 	"encoding/json"
 	"fmt"
 	"math/big"
+	"sort"
 	"time"
 
 	sdkmath "cosmossdk.io/math"
 	dbm "github.com/cometbft/cometbft-db"
 	abci "github.com/cometbft/cometbft/abci/types"
 	tmcrypto "github.com/cometbft/cometbft/crypto"
+	cryptoenc "github.com/cometbft/cometbft/crypto/encoding"
 	"github.com/cometbft/cometbft/libs/log"
 	tmproto "github.com/cometbft/cometbft/proto/tendermint/types"
 	tmtypes "github.com/cometbft/cometbft/types"
@@ -107,12 +109,16 @@ type Node struct {
 	Header  tmproto.Header
 	InBlock bool
 	AppHash []byte
+	// LastEndBlock is the response of the most recent EndBlock call.
+	LastEndBlock abci.ResponseEndBlock
 
 	GenesisDoc haqqtypes.GenesisState
 	// Absent marks validators (by index) that do not sign the next blocks.
 	Absent map[int]bool
 	// Log is the history fed to this node: one record per block (the last one may be open).
 	Log []BlockRec
+	// valSets[h] is the validator set of block h (see ValSetAt)
+	valSets map[int64]map[string]int64
 }
 
 // BlockRec is the input of one block.
@@ -393,7 +399,7 @@ func New(cfg Config) *Node {
 	if err != nil {
 		panic(err)
 	}
-	a.InitChain(abci.RequestInitChain{
+	icRes := a.InitChain(abci.RequestInitChain{
 		Time:            cfg.GenesisTime,
 		ChainId:         cfg.ChainID,
 		Validators:      []abci.ValidatorUpdate{},
@@ -405,7 +411,52 @@ func New(cfg Config) *Node {
 	n.AppHash = res.Data
 	n.Height = a.LastBlockHeight()
 	n.Time = cfg.GenesisTime
+	n.valSets = map[int64]map[string]int64{}
+	set := map[string]int64{}
+	for _, u := range icRes.Validators {
+		set[consAddrOf(u)] = u.Power
+	}
+	n.valSets[1], n.valSets[2] = set, set
 	return n
+}
+
+func consAddrOf(u abci.ValidatorUpdate) string {
+	pk, err := cryptoenc.PubKeyFromProto(u.PubKey)
+	if err != nil {
+		panic(err)
+	}
+	return string(pk.Address())
+}
+
+// ValSetAt is the validator set (consensus address -> power) that signs block h, maintained
+// from the EndBlock validator updates with CometBFT's two-block delay.
+func (n *Node) ValSetAt(h int64) map[string]int64 {
+	for k := h; k >= 1; k-- {
+		if s, ok := n.valSets[k]; ok {
+			return s
+		}
+	}
+	return map[string]int64{}
+}
+
+func (n *Node) applyValUpdates(h int64, ups []abci.ValidatorUpdate) {
+	// updates returned by EndBlock(h) take effect at block h+2
+	base := n.ValSetAt(h + 1)
+	if _, ok := n.valSets[h+1]; !ok {
+		n.valSets[h+1] = base
+	}
+	next := map[string]int64{}
+	for k, v := range base {
+		next[k] = v
+	}
+	for _, u := range ups {
+		if u.Power == 0 {
+			delete(next, consAddrOf(u))
+		} else {
+			next[consAddrOf(u)] = u.Power
+		}
+	}
+	n.valSets[h+2] = next
 }
 
 // Reopen constructs a fresh application over the node's database (a restart).
@@ -428,11 +479,24 @@ type BlockOpts struct {
 
 // VoteInfos builds LastCommitInfo votes for the genesis validators honouring n.Absent.
 func (n *Node) VoteInfos() []abci.VoteInfo {
-	var vs []abci.VoteInfo
+	// the commit of the previous block: its validator set, in address order
+	set := n.ValSetAt(n.Height)
+	var addrs []string
+	for a := range set {
+		addrs = append(addrs, a)
+	}
+	sort.Strings(addrs)
+	absent := map[string]bool{}
 	for i, v := range n.Vals {
+		if n.Absent[i] {
+			absent[string(v.ConsAddr)] = true
+		}
+	}
+	var vs []abci.VoteInfo
+	for _, a := range addrs {
 		vs = append(vs, abci.VoteInfo{
-			Validator:       abci.Validator{Address: v.ConsAddr, Power: v.Power},
-			SignedLastBlock: !n.Absent[i],
+			Validator:       abci.Validator{Address: []byte(a), Power: set[a]},
+			SignedLastBlock: !absent[a],
 		})
 	}
 	return vs
@@ -460,7 +524,20 @@ func (n *Node) BeginBlock(o BlockOpts) abci.ResponseBeginBlock {
 	}
 	votes := o.Votes
 	if votes == nil {
+		n.Height--
 		votes = n.VoteInfos()
+		n.Height++
+	}
+	// the proposer must be a member of the current set
+	if cur := n.ValSetAt(n.Height); len(cur) > 0 {
+		if _, ok := cur[string(n.Vals[p].ConsAddr)]; !ok {
+			var addrs []string
+			for a := range cur {
+				addrs = append(addrs, a)
+			}
+			sort.Strings(addrs)
+			n.Header.ProposerAddress = []byte(addrs[int(n.Height)%len(addrs)])
+		}
 	}
 	res := n.App.BeginBlock(abci.RequestBeginBlock{
 		Header:              n.Header,
@@ -482,7 +559,10 @@ func (n *Node) Deliver(tx []byte) abci.ResponseDeliverTx {
 }
 
 func (n *Node) EndBlock() abci.ResponseEndBlock {
-	return n.App.EndBlock(abci.RequestEndBlock{Height: n.Height})
+	res := n.App.EndBlock(abci.RequestEndBlock{Height: n.Height})
+	n.applyValUpdates(n.Height, res.ValidatorUpdates)
+	n.LastEndBlock = res
+	return res
 }
 
 func (n *Node) Commit() []byte {
